@@ -297,8 +297,11 @@ class Checker:
                 # legacy: a Form that is identically zero carries no arguments; what follows is not defined
                 part.count("exception_with_zero_Form_operand")
                 return None
+            import re
+
+            sig = en + (":" + re.sub(r"[^A-Za-z_ ']", "", str(e))[:60].strip() if str(e) else "")
             self.violation(
-                part, "exception-on-valid", r, None, f"type-correct composition raises {en}: {str(e)[:200]}",
+                part, "exception-on-valid", r, sig, f"type-correct composition raises {en}: {str(e)[:200]}",
                 {"exception": en, "message": str(e)[:500], "model_slots": list(typ[1])},
             )
             return None
